@@ -227,6 +227,40 @@ def extra_checks(tier, seed):
     out.append({"name": "C11/version-values/all-raw-bytes-natively", "status": "failed" if bad else "discharged",
                 "cases": n, "kind": "exhaustive", "seconds": time.time() - t0, "detail": "; ".join(bad[:4]),
                 "witness": {"problems": bad[:4]}, "replay": {"problems": bad[:4]}})
+    # ---- E5 (BOUNDED stand-in, not counted as proved): number -> raw -> number natively on boundary values.  The
+    # deductive units above decide it for every in-range number as long as the code stays within integer arithmetic; an
+    # implementation that goes through floats is outside the engine's reach (those units become undecided) and this
+    # native enumeration is then what still decides, with an input that replays
+    t0 = time.time()
+    bad = []
+    n = 0
+    import random
+    rnd = random.Random(62386)
+    for key, v in all_values():
+        if not (CM.value_kind(v) == "numeric" and type(v).__name__ == "_RegisterMemoryValue"):
+            continue
+        w = len(v.locations)
+        lo, hi = (-(1 << (8 * w - 1)), (1 << (8 * w - 1)) - 1) if v.signed else (0, (1 << (8 * w)) - 1)
+        cand = {lo, lo + 1, hi, hi - 1, hi - 2, 0, 1, -1, (1 << 53) - 1, 1 << 53, (1 << 53) + 1, (1 << 63) + 12345}
+        for k in range(1, 8 * w + 1):
+            cand.update({(1 << k) - 1, 1 << k, (1 << k) + 1, -(1 << k), -(1 << k) - 1})
+        cand.update(rnd.randint(lo, hi) for _ in range(64))
+        for x in sorted(c for c in cand if lo <= c <= hi):
+            n += 1
+            try:
+                raw = v.value_to_raw(x)
+                back = v.raw_to_value(raw)
+                ok = bytes(raw) == x.to_bytes(w, "big", signed=v.signed) and back == x and type(back) is int
+                why = "raw %s, back %r" % (bytes(raw).hex(), back)
+            except Exception as e:      # noqa: BLE001
+                ok, why = False, "raised %s: %s" % (type(e).__name__, e)
+            if not ok:
+                bad.append("%s/%s value_to_raw(%d): %s" % (key, v.__name__, x, why))
+                break
+    out.append({"name": "C11/bounded/number-to-raw-and-back-on-boundary-values", "status": "failed" if bad else "discharged",
+                "cases": n, "kind": "bounded-native", "seconds": time.time() - t0, "detail": "; ".join(bad[:4]),
+                "witness": {"problems": bad[:4]},
+                "replay": {"how": "cls.raw_to_value(cls.value_to_raw(x)) on the real classes", "problems": bad[:4]}})
     return out
 
 
@@ -239,7 +273,9 @@ META = {
                "raw bytes": "every byte string of the declared length, bytes symbolic (strings: the position of the first "
                             "NUL is a complete case split)", "numbers (inverse)": "the full unsigned/signed range of the width",
                "strings (inverse)": "ASCII 1..127, every length 0..24 (60-byte value: lengths 0..5, 59, 60 in quick, all in thorough)",
-               "version texts": "all 2^8 / 2^16 raw values evaluated natively (complete finite domain)"},
+               "version texts": "all 2^8 / 2^16 raw values evaluated natively (complete finite domain)",
+               "numbers (inverse), BOUNDED stand-in": "every plain numeric value natively on ~100-300 boundary and random numbers "
+               "of its range (powers of two and neighbours, range ends, 2^53 +- 1); decides only when the deductive unit cannot"},
     "assumptions": [
         "oracle for the layout clause: specs/memory_layout.py (IEC 62386-102 Table 9, DiiA 251/252/253), trusted",
         "Decimal / float scaling is compared structurally (same factor, same integer), not by float arithmetic",
